@@ -498,6 +498,79 @@ static void nonsquare_case(int r, int c)
     sym::witness("end");
 }
 
+// ---------------------------------------------------------------- the matrix argument passed as a block, a Map or an expression
+// (the wrappers take `const Eigen::Ref<const Matrix>&`: a block / Map is referenced in place with its strides, an expression is
+// evaluated into a temporary owned by the Ref)
+static void arg_kind_case(int n, const std::string& kind)
+{
+    RVec x = symx::fresh_vec("x", n);
+    if (kind == "block")
+    {
+        // the operand is the interior n x n block of a larger matrix whose border is junk
+        RMat big = symx::fresh_mat("junk_border", n + 2, n + 3);
+        RMat A = symx::fresh_mat("A", n, n);
+        big.block(1, 2, n, n) = A;
+        DenseGenMatProd<Real> op(big.block(1, 2, n, n));
+        RVec y = apply(op, x);
+        symx::check_mat_eq("block: y=Ax", y, RVec(A * x));
+        no_junk("block", y);
+        Tri t = make_tri("s", n, Eigen::Lower);
+        big.block(1, 2, n, n) = t.D;
+        DenseSymMatProd<Real, Eigen::Lower> ops(big.block(1, 2, n, n));
+        RVec ys = apply(ops, x);
+        symx::check_mat_eq("block: y=sym(A)x", ys, RVec(t.S * x));
+        no_junk("block sym", ys);
+    }
+    else if (kind == "map")
+    {
+        std::vector<Real> buf((n + 1) * n + 3);
+        for (size_t i = 0; i < buf.size(); i++)
+            buf[i] = sym::fresh("junk_buf" + std::to_string(i));
+        RMat A = symx::fresh_mat("A", n, n);
+        // column-major data with an outer stride of n+1 inside a larger buffer
+        for (int j = 0; j < n; j++)
+            for (int i = 0; i < n; i++)
+                buf[1 + j * (n + 1) + i] = A(i, j);
+        Eigen::Map<const RMat, 0, Eigen::OuterStride<>> M(buf.data() + 1, n, n, Eigen::OuterStride<>(n + 1));
+        DenseGenMatProd<Real> op(M);
+        RVec y = apply(op, x);
+        symx::check_mat_eq("map: y=Ax", y, RVec(A * x));
+        no_junk("map", y);
+        Real sigma = sym::fresh("sigma");
+        sym::DefScope dom(sym::Def::Assume);  // sigma is not an eigenvalue (see gen_real_shift)
+        DenseGenRealShiftSolve<Real> sol(M);
+        sol.set_shift(sigma);
+        RVec z = apply(sol, x);
+        symx::check_mat_eq("map: (A-sI)z=x", RVec((A - sigma * RMat::Identity(n, n)) * z), x);
+        no_junk("map solve", z);
+    }
+    else  // expression
+    {
+        RMat A = symx::fresh_mat("A", n, n), B = symx::fresh_mat("B", n, n);
+        DenseGenMatProd<Real> op(A + B * Real(2));
+        RVec y = apply(op, x);
+        symx::check_mat_eq("expression: y=(A+2B)x", y, RVec((A + B * Real(2)) * x));
+        Tri t = make_tri("s", n, Eigen::Upper);
+        Real sigma = sym::fresh("sigma");
+        RMat D = t.D;
+        sym::DefScope dom(sym::Def::Assume);  // sigma is not an eigenvalue (see gen_real_shift)
+        DenseSymShiftSolve<Real, Eigen::Upper> sol(D + RMat::Zero(n, n));  // a true expression: evaluated into the Ref's own temporary
+        try
+        {
+            sol.set_shift(sigma);
+        }
+        catch (const std::invalid_argument&)
+        {
+            sym::witness("end-singular");  // exactly singular shifted matrix: refused (decided under C10)
+            return;
+        }
+        RVec z = apply(sol, x);
+        symx::check_mat_eq("expression: (sym(A)-sI)z=x", RVec((t.S - sigma * RMat::Identity(n, n)) * z), x);
+        no_junk("expression solve", z);
+    }
+    sym::witness("end");
+}
+
 #define L Eigen::Lower
 #define U Eigen::Upper
 #define CM Eigen::ColMajor
@@ -510,6 +583,11 @@ int main(int argc, char** argv)
     {
         std::string sn = "/n" + std::to_string(n);
         auto add = [&](const std::string& nm, std::function<void(int)> f) { cases.push_back({nm + sn, [f, n]() { f(n); }}); };
+        for (const char* k : {"block", "map", "expression"})
+        {
+            std::string kind = k;
+            add("argument-kind/" + kind, [kind](int nn) { arg_kind_case(nn, kind); });
+        }
         add("DenseGenMatProd/col", dense_gen_prod<CM>);
         add("DenseGenMatProd/row", dense_gen_prod<RM>);
         add("DenseSymMatProd/lower/col", dense_sym_prod<L, CM>);
